@@ -998,6 +998,19 @@ func detdiff(args []string) int {
 					if lo < 0 {
 						lo = 0
 					}
+					if g := os.Getenv("VERIF_DD_GREP"); g != "" {
+						for _, h := range [][]string{first.History, rf.History} {
+							fmt.Println("=== lines with", g)
+							for _, l := range h {
+								for _, gg := range strings.Split(g, "|") {
+									if (strings.HasPrefix(gg, "^") && strings.HasPrefix(l, gg[1:])) || (!strings.HasPrefix(gg, "^") && strings.Contains(l, gg)) {
+										fmt.Println("   ", l)
+										break
+									}
+								}
+							}
+						}
+					}
 					fmt.Printf("--- run %d differs from run 0 at history line %d\n", k, i)
 					for j := lo; j < i; j++ {
 						fmt.Println("   ", first.History[j])
